@@ -838,6 +838,21 @@ fn exec<T: Elem>(pool: &mut Pool<T>, op: &WireOp, ctx: &Ctx) -> String {
             pool[us(*d)] = Some(m);
             ok
         }
+        (76, [d, s]) => {
+            if d == s {
+                return "INVALID".to_string();
+            }
+            need!(pool, *d);
+            need!(pool, *s);
+            let mut m = pool[us(*d)].take().unwrap();
+            let r = catch_unwind(AssertUnwindSafe(|| m.clone_from(pool[us(*s)].as_ref().unwrap())));
+            // whatever clone_from left behind stays in the pool (and is probed) even when caller code panicked
+            pool[us(*d)] = Some(m);
+            match r {
+                Ok(()) => ok,
+                Err(p) => std::panic::resume_unwind(p),
+            }
+        }
         (74, [d, s]) => {
             dest!(*d);
             need!(pool, *s);
